@@ -3,9 +3,9 @@ import AiocoapModel.Observe.Fresh
 # The client side of an observation: the runner of `aiocoap.protocol.Request`
 
 Model of `Request.__init__` / `_response_cancellation_handler` / `_run`
-(`aiocoap/protocol.py:651-814`, after the `fix:` commit for C07 — a first response that lacks
+(`aiocoap/protocol.py:651-832`, after the `fix:` commits for C07 — a first response that lacks
 the Observe option but is not marked last now signals `NotObservable` like one that is marked
-last) together with the parts of `ClientObservation` (`protocol.py:1134-1305`) it drives:
+last) together with the parts of `ClientObservation` (`protocol.py:1178-1373`) it drives:
 `callback`, `error` (which cancels) and `cancel`.
 
 The runner is a generator that is resumed once per event put on the request's `Pipe`
@@ -14,11 +14,11 @@ The runner is a generator that is resumed once per event put on the request's `P
 `Delivery`s in program order:
 
 * `response m` / `responseExc k` — `self.response.set_result(m)` / `.set_exception(exc)`
-  (`protocol.py:710/712`);
+  (`protocol.py:717/719`);
 * `callback m` — `self.observation.callback(m)`: every registered callback (and the async
-  iterator's `push`) gets `m` (`protocol.py:800`, `1256`);
+  iterator's `push`) gets `m` (`protocol.py:818`, `1328`);
 * `errback k` — `self.observation.error(exc)`: every registered errback gets the exception, the
-  observation is cancelled (`protocol.py:733/736/764/803/807`, `1264`);
+  observation is cancelled (`protocol.py:747/749/754/782/821/825`, `1336`);
 * `stopInterest` — `self._stop_interest()`, the requester withdraws from the pipe, which makes
   the token manager forget the token (`tokenmanager.py:240`).
 
@@ -26,14 +26,18 @@ When the runner returns, its `process` callback is dropped from the pipe, the pi
 (`pipe.py:186-189`) and discards every later event (`pipe.py:166-180`): state `ended`.
 
 Two things the application can do are events as well: `obsCancel` = `request.observation.cancel()`
-(the runner notices at its next resumption, `protocol.py:759`) and `respCancel` =
-`request.response.cancel()` (`protocol.py:680-692`).  `obsCancel` before the first response, or
-twice, runs into `RuntimeError`/`AssertionError` paths of `ClientObservation` that are not
-modelled: state `unmodelled` (the driver answers `out-of-model`).
+(the runner notices at its next resumption: `self.observation.cancelled` is tested in the loop and —
+since commit 5a6f232 — on the first-event paths as well, so an observation
+cancelled before the first response is never told anything while the response future completes as
+usual) and `respCancel` = `request.response.cancel()` (`protocol.py:681-693`).  `obsCancel` twice
+(the "cancelled twice" assertion of `ClientObservation.cancel`, raised in the application's own
+call), or on a request without Observe option (`request.observation` is `None`), is not modelled:
+state `unmodelled` (the driver answers `out-of-model`).
 
-Not modelled (runtime): the asyncio future behind `response`, the lossy `_Iterator`
-(`protocol.py:1162-1210`), registration of callbacks after the fact (`_latest_response` replay),
-logging.
+The lossy `_Iterator` behind `async for` and the replay done by `__aiter__` are modelled in
+`Observe/Iterator.lean`.  Not modelled (runtime): the asyncio future behind `response`,
+`register_callback` / `register_errback` called late by the application itself (deprecated
+interface), logging.
 -/
 namespace Aiocoap.Observe
 
@@ -75,6 +79,7 @@ deriving DecidableEq, Repr
 
 inductive ObsState
   | awaitingFirst               -- suspended at `first_event = yield None`
+  | cancelledFirst              -- the same, after `observation.cancel()` by the application
   | observing (v1 t1 : Nat)     -- suspended at `next_event = yield True`
   | appCancelled                -- the same, after `observation.cancel()` by the application
   | ended                       -- the runner has returned; the pipe has ended
@@ -91,7 +96,7 @@ def Event.isPipe : Event → Bool
   | .exception _ => true
   | _ => false
 
-/-- `protocol.py:707-743` -/
+/-- `protocol.py:707-761` -/
 def stepFirst (cfg : Cfg) (t : Nat) : Event → ObsState × List Delivery
   | .message m last =>
     if !cfg.observe then
@@ -102,11 +107,27 @@ def stepFirst (cfg : Cfg) (t : Nat) : Event → ObsState × List Delivery
       | none => (.ended, [.response m, .errback .notObservable, .stopInterest])
       | some v => (.observing v t, [.response m])
   | .exception k =>
-    (.ended, .responseExc k :: (if cfg.observe then [.errback .notObservable] else []))
-  | .obsCancel => (.unmodelled, [])
+    -- `protocol.py:738-750` (second `fix:` commit for C07): the observation is told the
+    -- transport's exception, not `NotObservable`
+    (.ended, .responseExc k :: (if cfg.observe then [.errback (.transport k)] else []))
+  | .obsCancel => if cfg.observe then (.cancelledFirst, []) else (.unmodelled, [])
   | .respCancel => (.ended, [.stopInterest])
 
-/-- one turn of the `while True` loop, `protocol.py:758-814` -/
+/-- the first event when the application has cancelled the observation before
+(`protocol.py:707-761`, the `self.observation.cancelled` tests of commit 5a6f232): the
+response future completes as usual, the observation is told nothing; a first notification still
+starts the loop, whose first resumption withdraws from the pipe (`stepCancelled`) -/
+def stepCancelledFirst : Event → ObsState × List Delivery
+  | .message m last =>
+    if last then (.ended, [.response m])
+    else match m.obs with
+      | none => (.ended, [.response m, .stopInterest])
+      | some _ => (.appCancelled, [.response m])
+  | .exception k => (.ended, [.responseExc k])
+  | .obsCancel => (.unmodelled, [])            -- "ClientObservation cancelled twice"
+  | .respCancel => (.ended, [.stopInterest])
+
+/-- one turn of the `while True` loop, `protocol.py:768-832` -/
 def stepObserving (cfg : Cfg) (v1 t1 t : Nat) : Event → ObsState × List Delivery
   | .message m last =>
     match m.obs with
@@ -122,7 +143,7 @@ def stepObserving (cfg : Cfg) (v1 t1 t : Nat) : Event → ObsState × List Deliv
   | .obsCancel => (.appCancelled, [])
   | .respCancel => (.observing v1 t1, [])      -- the future is done: `cancel()` does nothing
 
-/-- `protocol.py:759-761`: the observation was cancelled by the application -/
+/-- `protocol.py:776-779`: the observation was cancelled by the application -/
 def stepCancelled : Event → ObsState × List Delivery
   | .message _ _ => (.ended, [.stopInterest])
   | .exception _ => (.ended, [.stopInterest])
@@ -132,6 +153,7 @@ def stepCancelled : Event → ObsState × List Delivery
 def step (cfg : Cfg) (s : ObsState) (e : TEvent) : ObsState × List Delivery :=
   match s with
   | .awaitingFirst => stepFirst cfg e.time e.ev
+  | .cancelledFirst => stepCancelledFirst e.ev
   | .observing v1 t1 => stepObserving cfg v1 t1 e.time e.ev
   | .appCancelled => stepCancelled e.ev
   | .ended =>
